@@ -46,3 +46,5 @@ func (r *rng) intn(n int) int {
 func (r *rng) chance(num, den int) bool { return r.intn(den) < num }
 
 func (r *rng) pick(xs []string) string { return xs[r.intn(len(xs))] }
+
+func (r *rng) pickNames(xs [][]string) []string { return xs[r.intn(len(xs))] }
